@@ -18,6 +18,7 @@ pub mod c15;
 pub mod c19;
 pub mod c03;
 pub mod c04;
+pub mod tie;
 
 pub struct Env<'a> {
     pub a: &'a Args,
@@ -68,6 +69,7 @@ pub fn run(a: &Args) -> i32 {
         "c18" => c15::run_c18(&env),
         "c19" => c19::run(&env),
         "c04" => c04::run(&env),
+        "tie" => tie::run(&env),
         x => { eprintln!("unknown stream {}", x); return 2; }
     };
     rep.write(&a.out.join(format!("{}.report.json", a.stream)));
